@@ -1,3 +1,274 @@
 import FiberModel.DriverUtil
--- stub driver for C07; replaced when the property's model lands
-def main : IO Unit := pure ()
+import FiberModel.C07.Known
+/-
+Driver for C07. Case fields after the id: see harness/cmd/c07/main.go.
+-/
+open B DriverUtil C07
+
+def splitObs (s : String) : List String := s.splitOn "|"
+
+def parseReply (s : String) : Option Obs :=
+  if s.startsWith "panic" then some .panic
+  else if s == "noreply" then some .noreply
+  else if s.startsWith "unparsable" then some .unparsable
+  else
+    match s.splitOn "|" with
+    | st :: rest =>
+      match st.toNat?, rest.getLast? with
+      | some n, some bodyF =>
+        if !bodyF.startsWith "body=" then none
+        else
+          let hs := rest.dropLast.mapM fun h =>
+            match h.splitOn ":" with
+            | [k, v] => (fromHex v).map fun v' => (b k, v')
+            | _ => none
+          match hs, fromHex ((bodyF.drop 5).toString) with
+          | some hs, some body => some (.reply ⟨n, hs, body⟩)
+          | _, _ => none
+      | _, _ => none
+    | [] => none
+
+def parseInts (s : String) : Option (List Int) :=
+  if s == "-" || s == "" then some [] else (s.splitOn ",").mapM (·.toInt?)
+
+def printable (bs : Bytes) : Bool := bs.all fun c => c = 9 || c = 10 || c = 13 || (32 ≤ c && c ≠ 127 && c < 256)
+
+def pairs : List Bytes → List (Bytes × Bytes)
+  | k :: v :: rest => (k, v) :: pairs rest
+  | _ => []
+
+/-- decode helper + argument lists into a `Call`, rejecting everything outside the modelled domain -/
+def parseCall (helper : String) (a : List Bytes) (n : List Int) : Except String Call := do
+  if !a.all printable then throw "outside-domain: control byte (other than CR/LF/TAB) in an argument"
+  match helper, a with
+  | "set", [k, v] => if headerVocab.contains k then pure (.set k v) else throw "outside-domain: header name"
+  | "append", f :: vs => if headerVocab.contains f then pure (.append f vs) else throw "outside-domain: header name"
+  | "vary", fs => pure (.vary fs)
+  | "location", [p] => pure (.location p)
+  | "redirect", loc :: kv =>
+    if kv.length % 2 ≠ 0 ∨ n.length ≠ kv.length / 2 then throw "outside-domain: redirect arity"
+    else if n.any (fun l => l < 0 ∨ l > 255) then throw "outside-domain: level"
+    else pure (.redirectTo loc ((pairs kv).zip n |>.map fun (kv, l) => (kv.1, kv.2, l.toNat)))
+  | "cookie", [nm, v, p, d, ss] =>
+    match n with
+    | [ma, se, ho, pa, so] =>
+      if !(pathInDomain p) then throw "outside-domain: cookie path"
+      else if p ≠ [] ∧ p.head? ≠ some 47 then throw "outside-domain: cookie path"
+      else pure (.cookie ⟨nm, v, p, d, ma, se == 1, ho == 1, pa == 1, so == 1, ss⟩)
+    | _ => throw "outside-domain: cookie ints"
+  | "clearcookie", keys =>
+    if keys = [] ∨ keys.any (· = []) then throw "outside-domain: empty cookie name"
+    else if (keys.map sanitize).eraseDups.length ≠ keys.length then throw "outside-domain: duplicate cookie names"
+    else pure (.clearCookie keys)
+  | "links", ls => pure (.links ls)
+  | "attachment", [f] =>
+    if f = [] ∨ f.contains 47 ∨ f.contains 92 ∨ f = b "." ∨ f = b ".." then throw "outside-domain: file name"
+    else pure (.attachment f)
+  | "type", [e, cs] => pure (.type e cs)
+  | "format", [mt] => if mt = [] then throw "outside-domain: empty media type" else pure (.format mt)
+  | "json", [ct] => if ct = [] then throw "outside-domain: empty content type" else pure (.json ct)
+  | "jsonp", [cb] => pure (.jsonp cb)
+  | _, _ => throw s!"outside-domain: helper {helper} / arity"
+
+/-- optional whitespace around a field value is not part of it (the strict parser strips it) -/
+def trimOWS (v : Bytes) : Bytes :=
+  let f := fun (l : Bytes) => l.dropWhile fun c => c == 32 || c == 9
+  (f (f v).reverse).reverse
+
+def renderLines (ls : List (Bytes × Bytes)) : String :=
+  let xs := sortB (ls.map fun (k, v) => k ++ [58] ++ trimOWS v)
+  ",".intercalate (xs.map toHexField)
+
+def renderResp (status : Nat) (lines : List (Bytes × Bytes)) (ct : Option Bytes) (body : Bytes) : String :=
+  s!"{status};{renderLines lines};ct={match ct with | none => "*" | some v => toHexField (trimOWS v)};body={toHexField body}"
+
+def canonReply (o : Obs) (ctModelled : Bool) (raw : String) : String :=
+  match o with
+  | .reply r =>
+    let ls := r.headers.filter fun h => h.1 ≠ hDate ∧ h.1 ≠ hCT ∧ h.1 ≠ hCL
+    let ct := if ctModelled then (r.headers.find? (·.1 = hCT)).map (·.2) else none
+    renderResp r.status ls (if ctModelled then some (ct.getD []) else none) r.body
+  | _ => (raw.take 40).toString
+
+def callTag : Call → String
+  | .set .. => "set" | .append .. => "append" | .vary .. => "vary" | .location .. => "location"
+  | .redirectTo .. => "redirect" | .cookie .. => "cookie" | .clearCookie .. => "clearcookie" | .links .. => "links"
+  | .attachment .. => "attachment" | .type .. => "type" | .format .. => "format" | .json .. => "json" | .jsonp .. => "jsonp"
+
+def handleEmit (id helper args ints obs : String) : Except String Verdict := do
+  let some a := hexList args | throw "outside-domain: args"
+  let some n := parseInts ints | throw "outside-domain: ints"
+  let call ← parseCall helper a n
+  let some o := parseReply obs | throw "outside-domain: unreadable observation"
+  let m := emit call
+  let modelObs := renderResp m.status m.lines m.ctype m.body
+  let implObs := canonReply o m.ctype.isSome obs
+  let crlf := a.any fun x => x.contains 13 || x.contains 10
+  let tags := ["emit", "emit-" ++ callTag call] ++ (if crlf then ["nt-emit-crlf"] else [])
+  pure { id := id, modelObs := modelObs, implObs := implObs, spec := specEmit call o,
+         known := if Known.K1 call then some "K1" else none, tags := tags }
+
+def pRender (r : P String) : String :=
+  match r with
+  | .ok s => s
+  | .error e => s!"panic({repr e})"
+
+def intS (i : Int) : String := toString i
+
+def handleRange (id hdr size obs : String) : Except String Verdict := do
+  let some sz := size.toInt? | throw "outside-domain: size"
+  if sz < 0 ∨ sz ≥ 4611686018427387904 then throw "outside-domain: size"
+  let _ := hdr
+  match splitObs obs with
+  | [res, seen] =>
+    let some h := fromHex seen | throw "outside-domain: seen header"
+    let model : P String := (range h sz).map fun r =>
+      match r with
+      | .malformed => "err:malformed"
+      | .unsatisfiable => "err:unsat"
+      | .ok t rs => s!"ok:{toHexField t}:{",".intercalate (rs.map fun (a, e) => s!"{a}-{e}")}"
+    -- the implementation's ranges, for the sanity clause of the spec
+    let implRanges : List (Int × Int) :=
+      match res.splitOn ":" with
+      | ["ok", _, rs] => (rs.splitOn ",").filterMap fun x =>
+          match x.splitOn "-" with
+          | [a, e] => match a.toInt?, e.toInt? with | some a, some e => some (a, e) | _, _ => none
+          | _ => none
+      | _ => []
+    let tag := if res.startsWith "ok" then "nt-range-ok" else if res == "err:unsat" then "range-unsat" else "range-malformed"
+    pure { id := id, modelObs := pRender model, implObs := res, spec := specRange sz res implRanges, tags := ["range", tag] }
+  | _ =>
+    pure { id := id, modelObs := "?", implObs := obs, spec := specNoPanic obs, tags := ["range", "range-noparse"] }
+
+def parseVerdicts (s : String) : Option (List (Bytes × Nat)) :=
+  if s == "-" then some [] else (s.splitOn ",").mapM fun e =>
+    match e.splitOn ":" with
+    | [h, v] => do
+      let k ← (if h == "_" then some [] else fromHexAux h.toList)
+      let n ← v.toNat?
+      pure (k, n)
+    | _ => none
+
+def handleIPs (id cfg hdr verdicts obs : String) : Except String Verdict := do
+  let _ := hdr
+  let some vt := parseVerdicts verdicts | throw "outside-domain: verdict table"
+  match splitObs obs with
+  | [res, seen] =>
+    let some h := fromHex seen | throw "outside-domain: seen header"
+    let look (bit : Nat) (s : Bytes) : Bool := match vt.find? (·.1 = s) with | some (_, v) => v / bit % 2 = 1 | none => false
+    let cfgM : IPCfg := { validate := cfg == "v", isV4 := look 1, isV6 := look 2 }
+    let ips := extractIPs cfgM h
+    let ip : P Bytes := if cfg == "v" then (extractIP cfgM h).map fun l => l.headD (b "127.0.0.1") else .ok (b "127.0.0.1")
+    let model : P String := do
+      let l ← ips
+      let one ← ip
+      pure s!"ips={hexListField l};ip={toHexField one}"
+    -- every candidate the model asked about must be in the verdict table (else the case is outside the tabulated domain)
+    let asked : List Bytes := match extractIPs { cfgM with validate := false } h with | .ok l => l | .error _ => []
+    if cfg == "v" ∧ asked.any (fun s => (vt.find? (·.1 = s)).isNone) then throw "outside-domain: segment without verdict"
+    let n := match ips with | .ok l => l.length | .error _ => 0
+    pure { id := id, modelObs := pRender model, implObs := res, spec := specNoPanic res,
+           tags := ["ips", if cfg == "v" then "ips-validate" else "ips-plain"] ++ (if n > 0 then ["nt-ips"] else []) }
+  | _ => pure { id := id, modelObs := "?", implObs := obs, spec := specNoPanic obs, tags := ["ips", "ips-noparse"] }
+
+def handleSubd (id off obs : String) : Except String Verdict := do
+  let some o := off.toNat? | throw "outside-domain: offset"
+  match splitObs obs with
+  | [host, res, hn] =>
+    let some h := fromHex host | throw "outside-domain: host"
+    let model : P String := do
+      let l ← subdomains h o
+      let (hname, _) ← parseAddr h
+      pure s!"{hexListField l}|{toHexField hname}"
+    pure { id := id, modelObs := pRender model, implObs := s!"{res}|{hn}", spec := specNoPanic obs, tags := ["subd", "nt-subd"] }
+  | _ => pure { id := id, modelObs := "?", implObs := obs, spec := specNoPanic obs, tags := ["subd", "subd-noparse"] }
+
+def handleFresh (id obs : String) : Except String Verdict := do
+  match splitObs obs with
+  | [cc, nm, et, res] =>
+    let some cc := fromHex cc | throw "outside-domain: cc"
+    let some nm := fromHex nm | throw "outside-domain: nm"
+    let some et := fromHex et | throw "outside-domain: etag"
+    let model : P String := (fresh cc nm et).map fun v => if v then "1" else "0"
+    pure { id := id, modelObs := pRender model, implObs := res, spec := specNoPanic obs,
+           tags := ["fresh"] ++ (if nm ≠ [] then ["nt-fresh"] else []) }
+  | _ => pure { id := id, modelObs := "?", implObs := obs, spec := specNoPanic obs, tags := ["fresh", "fresh-noparse"] }
+
+def handleEnc (id obs : String) : Except String Verdict := do
+  match splitObs obs with
+  | [seen, cls] =>
+    let some ce := fromHex seen | throw "outside-domain: content-encoding"
+    pure { id := id, modelObs := pRender (bodyClass ce), implObs := cls, spec := specNoPanic obs, tags := ["enc", "nt-enc"] }
+  | _ => pure { id := id, modelObs := "?", implObs := obs, spec := specNoPanic obs, tags := ["enc", "enc-noparse"] }
+
+def handleAcc (id offers obs : String) : Except String Verdict := do
+  let some os := hexList offers | throw "outside-domain: offers"
+  match splitObs obs with
+  | [seen, res] =>
+    let some h := fromHex seen | throw "outside-domain: header"
+    if h.contains 59 then throw "outside-domain: parameters in Accept-Charset (C09's territory)"
+    let model : P String := (acceptsCharsets h os).map toHexField
+    pure { id := id, modelObs := pRender model, implObs := res, spec := specNoPanic obs,
+           tags := ["acc"] ++ (if h.contains 34 then ["nt-acc-quoted"] else ["nt-acc"]) }
+  | _ => pure { id := id, modelObs := "?", implObs := obs, spec := specNoPanic obs, tags := ["acc", "acc-noparse"] }
+
+def handleOffer (id offer obs : String) : Except String Verdict := do
+  let some of := fromHex offer | throw "outside-domain: offer"
+  if of = [] ∨ of.contains 59 then throw "outside-domain: offer must be an extension or a MIME type"
+  match splitObs obs with
+  | [seen, res] =>
+    let some h := fromHex seen | throw "outside-domain: header"
+    if h.contains 59 ∨ h.contains 44 ∨ h.contains 34 then throw "outside-domain: single media range without parameters only"
+    let spec := trim h 32
+    let mimetype := if of.contains 47 then of else (mimeOf of).getD (b "application/octet-stream")
+    let model : P String :=
+      if h = [] then .ok "1"
+      else if spec = b "*/*" then .ok "1"
+      else (acceptsOfferTypeSlices spec mimetype).map fun v => if v then "1" else "0"
+    pure { id := id, modelObs := pRender model, implObs := res, spec := specNoPanic obs, tags := ["offer", "nt-offer"] }
+  | _ => pure { id := id, modelObs := "?", implObs := obs, spec := specNoPanic obs, tags := ["offer", "offer-noparse"] }
+
+def customMethods : List Bytes := [b "GET", b "BREW", b "POST", b "PROPFIND"]
+
+def methodToken (m : Bytes) : Bool :=
+  m ≠ [] && m.all fun c => isAlpha c || isDigit c || c = 45 || c = 95
+
+def handleMethod (id cfg m obs : String) : Except String Verdict := do
+  let some m := fromHex m | throw "outside-domain: method"
+  if !methodToken m then throw "outside-domain: not a method token"
+  let custom := if cfg == "m" then some customMethods else none
+  let model := match unknownMethodStatus custom m with | some s => s | none => "200"
+  let configured := if cfg == "m" then customMethods else defaultMethods
+  pure { id := id, modelObs := model, implObs := obs, spec := specMethod configured m obs,
+         tags := ["method", if configured.contains m then "method-known" else "nt-method-unknown"] }
+
+def errOfLabel (s : String) : Option ServerErr :=
+  [ServerErr.smallBuffer, .netTimeout, .netOther, .bodyTooLarge, .getOnly, .textTimeout, .other].find? (·.label == s)
+
+def handleSrvErr (id cls obs : String) : Except String Verdict := do
+  let some e := errOfLabel cls | throw "outside-domain: error class"
+  pure { id := id, modelObs := serverErrorStatus e, implObs := obs, spec := specSrvErr cls obs, tags := ["srverr", "nt-srverr-" ++ cls] }
+
+def handleWire (id req obs alloc : String) : Except String Verdict := do
+  let some r := fromHex req | throw "outside-domain: request"
+  let some al := alloc.toNat? | throw "outside-domain: alloc"
+  -- validation run (not proof): no model of fasthttp's request parser; the oracles are in the spec
+  pure { id := id, modelObs := obs, implObs := obs, spec := specWire r.length obs al,
+         tags := ["wire", if obs.startsWith "ok" then "wire-answered" else "wire-" ++ (obs.take 7).toString] }
+
+def handleCase (f : List String) : Except String Verdict := do
+  match f with
+  | [id, "emit", _, helper, args, ints, obs] => handleEmit id helper args ints obs
+  | [id, "range", _, hdr, size, obs] => handleRange id hdr size obs
+  | [id, "ips", cfg, hdr, verdicts, obs] => handleIPs id cfg hdr verdicts obs
+  | [id, "subd", _, _, off, obs] => handleSubd id off obs
+  | [id, "fresh", _, _, _, _, obs] => handleFresh id obs
+  | [id, "enc", _, _, obs] => handleEnc id obs
+  | [id, "acc", _, _, offers, obs] => handleAcc id offers obs
+  | [id, "offer", _, _, offer, obs] => handleOffer id offer obs
+  | [id, "method", cfg, m, obs] => handleMethod id cfg m obs
+  | [id, "srverr", _, cls, _, obs] => handleSrvErr id cls obs
+  | [id, "wire", _, req, obs, alloc] => handleWire id req obs alloc
+  | _ => throw s!"outside-domain: unrecognised case shape ({f.length} fields)"
+
+def main : IO Unit := run handleCase
